@@ -34,7 +34,7 @@ fn legacy_partners() -> &'static HashMap<u32, Vec<u32>> {
     })
 }
 
-fn partners(c: u32, unicode: bool) -> Vec<u32> {
+pub fn partners(c: u32, unicode: bool) -> Vec<u32> {
     if unicode {
         let s = crate::uni::scf();
         match s.rep.get(&c) {
@@ -562,6 +562,123 @@ fn check_sweep(case: &Case, l: &mut Local) -> Verdict {
     Verdict::Pass { nontrivial: true }
 }
 
+// ---- variant 5: every interval of up to 4 code points that starts or ends at a cased code point, under i / iu / iv,
+// plain and negated, against the canonical-equivalence closure (oracle: uni.rs = std + ES rule / V8 scf export)
+
+pub fn cased() -> &'static (Vec<u32>, String) {
+    static C: OnceLock<(Vec<u32>, String)> = OnceLock::new();
+    C.get_or_init(|| {
+        let mut set: BTreeSet<u32> = BTreeSet::new();
+        for c in (0..=0x10FFFFu32).filter(|c| char::from_u32(*c).is_some()) {
+            for uni in [false, true] {
+                let k = crate::uni::canon(c, uni);
+                if k != c {
+                    set.insert(c);
+                    set.insert(k);
+                }
+            }
+        }
+        let cased: Vec<u32> = set.iter().copied().collect();
+        // probes: cased code points and their neighbours
+        let mut probes: BTreeSet<u32> = BTreeSet::new();
+        for c in &cased {
+            for d in c.saturating_sub(4)..=(c + 4).min(0x10FFFF) {
+                if char::from_u32(d).is_some() {
+                    probes.insert(d);
+                }
+            }
+        }
+        (cased, probes.iter().filter_map(|c| char::from_u32(*c)).collect())
+    })
+}
+
+const ISWEEP_BLOCK: usize = 32;
+
+fn isweep_cases() -> Vec<Case> {
+    let n = (cased().0.len() + ISWEEP_BLOCK - 1) / ISWEEP_BLOCK;
+    (0..n).map(|b| Case { x: json!({"block": b}), ..Default::default() }).collect()
+}
+
+fn gen_isweep(src: &mut Src, _t: Tier) -> Case {
+    let n = (cased().0.len() + ISWEEP_BLOCK - 1) / ISWEEP_BLOCK;
+    Case { x: json!({"block": src.below(n as u32)}), ..Default::default() }
+}
+
+fn check_isweep(case: &Case, l: &mut Local) -> Verdict {
+    let (cased, hay) = cased();
+    let b = case.x.get("block").and_then(|b| b.as_u64()).unwrap_or(0) as usize;
+    let esc = |c: u32, unicode: bool| -> Vec<u32> {
+        let t = if unicode { format!("\\u{{{:X}}}", c) } else if c <= 0xFFFF { format!("\\u{:04X}", c) } else { char::from_u32(c).unwrap().to_string() };
+        t.chars().map(|c| c as u32).collect()
+    };
+    let mut n = 0u64;
+    for &c in cased.iter().skip(b * ISWEEP_BLOCK).take(ISWEEP_BLOCK) {
+        let mut ivs: Vec<(u32, u32)> = vec![];
+        for k in 0..4u32 {
+            ivs.push((c, (c + k).min(0x10FFFF)));
+            ivs.push((c.saturating_sub(k), c));
+        }
+        ivs.sort();
+        ivs.dedup();
+        for (lo, hi) in ivs {
+            if (lo..=hi).any(|x| char::from_u32(x).is_none()) {
+                continue;
+            }
+            for f in ["i", "iu", "iv"] {
+                let fl = Fl::parse(f);
+                let uni = fl.unicode();
+                let canon_set: BTreeSet<u32> = (lo..=hi).map(|a| crate::uni::canon(a, uni)).collect();
+                for neg in [false, true] {
+                    let mut pat: Vec<u32> = vec![0x5B];
+                    if neg {
+                        pat.push(0x5E);
+                    }
+                    pat.extend(esc(lo, uni));
+                    if hi > lo {
+                        pat.push(0x2D);
+                        pat.extend(esc(hi, uni));
+                    }
+                    pat.push(0x5D);
+                    let re = match compile(&pat, fl, false) {
+                        Ok(r) => r,
+                        Err(e) => return Verdict::Fail(format!("/{}/{} does not compile: {}", show(&pat), f, e)),
+                    };
+                    regress::verif::set_fuel(u64::MAX);
+                    let mut got: BTreeSet<u32> = BTreeSet::new();
+                    for m in re.find_iter(hay) {
+                        let mut it = hay[m.range()].chars();
+                        match (it.next(), it.next()) {
+                            (Some(ch), None) => {
+                                got.insert(ch as u32);
+                            }
+                            _ => return Verdict::Fail(format!("/{}/{}: a class matched something other than one character at {}", show(&pat), f, m.start())),
+                        }
+                    }
+                    for ch in hay.chars() {
+                        let x = ch as u32;
+                        let want = canon_set.contains(&crate::uni::canon(x, uni)) != neg;
+                        if want != got.contains(&x) {
+                            return Verdict::Fail(format!(
+                                "/{}/{}: U+{:04X} {} but canonical equivalence ({}) says it {}",
+                                show(&pat),
+                                f,
+                                x,
+                                if want { "is not matched" } else { "is matched" },
+                                if uni { "simple case folding" } else { "legacy upper-casing" },
+                                if want { "belongs to the class" } else { "does not" }
+                            ));
+                        }
+                    }
+                    n += 1;
+                }
+            }
+        }
+    }
+    l.add("icase_intervals_checked", n);
+    Verdict::Pass { nontrivial: true }
+}
+
+pub static V_ISWEEP: Variant = Variant { name: "icase_interval_sweep", choice_len: 1, gen: gen_isweep, check: check_isweep };
 pub static V_CLASS: Variant = Variant { name: "class_vs_reference", choice_len: 400, gen: gen_class_case, check: check_class };
 pub static V_VSLICE: Variant = Variant { name: "exhaustive_v_depth2", choice_len: 1, gen: gen_vslice, check: check_class };
 pub static V_RAW: Variant = Variant { name: "annex_b_spellings", choice_len: 100, gen: gen_raw_class_case, check: check_class };
@@ -569,19 +686,20 @@ pub static V_LAWS: Variant = Variant { name: "set_laws", choice_len: 400, gen: g
 pub static V_SWEEP: Variant = Variant { name: "fixed_set_sweeps", choice_len: 1, gen: gen_sweep, check: check_sweep };
 
 pub fn variants() -> Vec<&'static Variant> {
-    vec![&V_CLASS, &V_RAW, &V_LAWS, &V_SWEEP, &V_VSLICE]
+    vec![&V_CLASS, &V_RAW, &V_LAWS, &V_SWEEP, &V_VSLICE, &V_ISWEEP]
 }
 
 pub fn run(ctx: &Ctx) -> i32 {
     esref::selftest::ensure();
     ctx.run_list(&V_SWEEP, &sweep_cases());
     ctx.run_list(&V_VSLICE, v_slice());
+    ctx.run_list(&V_ISWEEP, &isweep_cases());
     ctx.run_variant(&V_CLASS, ctx.scale(150_000, 2_500_000));
     ctx.run_variant(&V_RAW, ctx.scale(150_000, 2_500_000));
     ctx.run_variant(&V_LAWS, ctx.scale(100_000, 1_500_000));
     ctx.finish(
         "exploration",
-        "(0) bounded-exhaustive: ALL v-mode expressions of depth <= 2 (union / && / -- of two operands, and of such an expression with an operand on either side) over 13 operands {a, b, A, a-b, \\d, \\w, \\W, \\q{ab}, \\q{a|bc}, \\q{}, \\q{ab|AB|b}, [aB], [^a]}, outer negation where the grammar allows it, flags v and iv, each probed with 21 fixed strings. (1) class expressions: legacy/u brackets (chars, ranges, class escapes, \\p) and v-mode expression trees to depth 3 (union / && / --, nested and negated nested classes, \\q{} with 0-3 strings of length 0-3, \\p), with and without i, outer negation, over themed alphabets incl. interval stress points (0, 7F/80, D7FF/E000, 10FFFF); /^E$/ is probed with every mentioned character, its neighbours, its case partners, 26 decoys from every plane, every \\q string with its prefixes / extensions / case variants, and the empty string; oracle = the reference model's set semantics (opt and no_opt pipelines). (2) the same for raw Annex B spellings ([a-\\d], [--a], [\\c1], [\\b], legacy octal...). (3) metamorphic set laws on generated v-mode operands (commutativity, A--B = A&&[^B], [[A]] = [A], double complement, De Morgan) judged on the probes with no oracle. (4) EXHAUSTIVE sweeps over all 1,112,064 scalar values of \\d \\D \\w \\W \\s \\S, the same inside [..] and [^..], '.', [^], unions, and \\b/\\B next to every character, for flags {-,u,v,s,m} against sets written out from the spec. Non-trivial = class with >= 2 operators/escapes having both a member and a non-member among the probes.",
+        "(00) EVERY interval of 1..4 code points that starts or ends at a cased code point (one whose legacy or Unicode canonical form differs, or that is such a form), as [lo-hi] and [^lo-hi] under i, iu and iv, run over all cased code points and their +-4 neighbours and compared with the canonical-equivalence closure; (0) bounded-exhaustive: ALL v-mode expressions of depth <= 2 (union / && / -- of two operands, and of such an expression with an operand on either side) over 13 operands {a, b, A, a-b, \\d, \\w, \\W, \\q{ab}, \\q{a|bc}, \\q{}, \\q{ab|AB|b}, [aB], [^a]}, outer negation where the grammar allows it, flags v and iv, each probed with 21 fixed strings. (1) class expressions: legacy/u brackets (chars, ranges, class escapes, \\p) and v-mode expression trees to depth 3 (union / && / --, nested and negated nested classes, \\q{} with 0-3 strings of length 0-3, \\p), with and without i, outer negation, over themed alphabets incl. interval stress points (0, 7F/80, D7FF/E000, 10FFFF); /^E$/ is probed with every mentioned character, its neighbours, its case partners, 26 decoys from every plane, every \\q string with its prefixes / extensions / case variants, and the empty string; oracle = the reference model's set semantics (opt and no_opt pipelines). (2) the same for raw Annex B spellings ([a-\\d], [--a], [\\c1], [\\b], legacy octal...). (3) metamorphic set laws on generated v-mode operands (commutativity, A--B = A&&[^B], [[A]] = [A], double complement, De Morgan) judged on the probes with no oracle. (4) EXHAUSTIVE sweeps over all 1,112,064 scalar values of \\d \\D \\w \\W \\s \\S, the same inside [..] and [^..], '.', [^], unions, and \\b/\\B next to every character, for flags {-,u,v,s,m} against sets written out from the spec. Non-trivial = class with >= 2 operators/escapes having both a member and a non-member among the probes.",
         &["esref's class evaluator and Unicode data (V8/ICU export, std) are the trusted base", "properties of strings are not evaluated by the reference (C11 covers them)"],
     )
 }
